@@ -424,7 +424,13 @@ def print (named : Named) : Nat → IR → RT
             if !(distinct.all (·.1)) then none else
             let flatVals := setOf (distinct.flatMap fun v => extractUnion named 50 v.2)
             match flatVals.mapM singleStringConst with
-            | some strs => some (disc, JsVal.sortStrings (strs.foldl (fun a s => if a.contains s then a else a ++ [s]) []))
+            | some strs =>
+              -- fix D67: a tag carried by every variant would select the whole union again
+              let separates := strs.all fun tag => objectVs.any fun vs => match vsGet vs disc with
+                | some v => !(((extractUnion named 50 v.2).filterMap singleStringConst).contains tag)
+                | none => true
+              if separates then some (disc, JsVal.sortStrings (strs.foldl (fun a s => if a.contains s then a else a ++ [s]) []))
+              else none
             | none => none
           match pick with
           | some (disc, strs) =>
